@@ -110,6 +110,8 @@ def run_once(module, cfg=None, tag=None, workers=16, timeout_s=600, simulate=Non
     res.wall_s = time.time() - t0
     res.cmd = " ".join(cmd[2:])
     _parse(outpath, res)
+    # TLC's workers print in a nondeterministic order; a canonical order makes every seeded sample of the cases reproducible
+    res.emitted.sort(key=lambda e: json.dumps(e, sort_keys=True))
     if p.returncode == 124:
         raise TlcFailure("TLC timed out after %ds: %s" % (timeout_s, res.cmd))
     finished = "Model checking completed" in res.raw_tail or "Finished in" in res.raw_tail
